@@ -6,6 +6,11 @@ ALL = ["C%02d" % i for i in range(1, 21)]
 
 # id -> (level category, engine, technique, level text, level note, design ref)
 CLAIMED = {
+ "C14": ("fault_enumeration", "E5 truncation / single-token mutation enumeration in crash-proof workers + E4 opener faults",
+         "exhaustive enumeration of truncation points, single-token mutations, parameter sweeps, reference graphs and opener faults, every input loaded by the real parser/compiler in worker processes with deadlines",
+         "Corpus = every .yang file in the repository (quick: files up to 700 bytes) plus generated modules covering all statement kinds. For each: every byte prefix; every token deleted, duplicated and substituted by 13 token-class representatives. Sweeps 1..300 of nesting depth (container, list, choice/case, grouping, uses chains, augments), concatenation parts, extension arguments, siblings, identifier length, comments and strings cut at EOF. NUL/non-UTF-8/odd bytes inserted and replaced at every position of a small module. Every reference graph on 3 nodes (64 functions each) for typedefs, groupings (direct and through containers), identities, leafrefs, imports and includes; augment/deviation/leafref/refine/uses-augment targets of every node kind (incl. missing) x 12 deviate forms; ~60 malformed-statement modules; 9 opener behaviours and a reader failing at every 7th byte. Each load runs in a worker process (64 MiB stack limit, 30 s batch deadline, crashes bisected to the single input): the result must be module-or-error, and a returned module must survive a walk over all public accessors and export through the schema browser.",
+         "trusted: worker protocol and crash attribution (internal/eng), harness tokenizer; two simultaneous mutations are not covered",
+         "DESIGN.md section 7 C14"),
  "C05": ("exploration", "E3 value-domain enumeration through generated modules",
          "exhaustive enumeration of restriction chains x candidate values x write paths, each write executed on the real code and compared with a big-number / anchored-regex reference of membership in the effective type",
          "173 generated modules: for all 8 integer widths and decimal64 every range shape (single value, closed, min/max keywords, alternatives, white space, negative, 64-bit and unsigned extremes) directly and through typedef chains of depth 1-2 that narrow the base; string lengths (incl. multi-byte), single/multiple/inverted/inherited patterns, enumeration names and values, bits, identityref (derived, underived, base, module qualifier), union members with their own restrictions. Candidates are every bound of every level with both neighbours, type extremes and zero (strings of every length 0..6, multi-byte, unknown names). Each is written through 7 paths (Set, SetValue, Upsert/Insert/Update from JSON, Upsert from XML and from a node) into a leaf and into each position of a leaf-list. Accepted iff in the effective type; a rejected write must return an error and leave the store unchanged; no expression may panic.",
